@@ -6,7 +6,7 @@
    the abstract cards and the periodic table. *)
 From Coq Require Import List NArith ZArith Bool String Ascii Reals PrimFloat.
 From T4V Require Import Base.Str Base.Scalar C10.Model C10.ProofsStr C10.Spec C10.ProofsHead
-  C10.ProofsCard C10.ProofsNum C10.ProofsDeck C10.ProofsPipe C10.LinkC09 C10.LinkC14.
+  C10.ProofsCard C10.ProofsNum C10.ProofsDeck C10.ProofsPipe C10.LinkC09 C10.LinkC14 C10.LinkC09b C10.LinkC09c.
 From T4V Require C09.Model C09.Spec C09.ProofsNorm C14.Model C14.ProofsContent C14.ProofsCards.
 Import ListNotations.
 Open Scope string_scope.
@@ -593,4 +593,129 @@ Proof.
     + cbn. repeat split; vm_compute; reflexivity.
     + vm_compute. reflexivity.
   - repeat constructor.
+Qed.
+
+(* ------------------------------------------------------------------------ *)
+(* round 3: the two models of writeT4Composition, values of the spellings    *)
+(* ------------------------------------------------------------------------ *)
+
+(* C09 also models writeT4Composition (C09.Model.write_compositions: its own
+   cell dictionary with raw material tokens and integer importances; block
+   type from the sign of the normalised density string; the computed amounts
+   in a table pw).  On the common inputs — cells whose material token reads as
+   an integer (to10), the C10 cards seen as C09 cards (mc_of), norm = C09's
+   normalize_float, float() accepted exactly when C09's float_ok holds and
+   negative exactly when neg_density holds (fval9), pw holding the amounts C10
+   renders — whenever the C10 model returns, C09's model returns the SAME text *)
+Theorem C10_write_compositions_agree_linked :
+  forall (rend : string -> nat -> R -> string) (pw : list (string * list (string * string)))
+         (cells9 : T4V.C09.Model.dict T4V.C09.Model.cell) (cells : list (cell (T:=R)))
+         (mats : list (N * abundances)) (d : list (N * list (block (T:=R)))),
+  to10 cells9 = Some cells ->
+  construct RS c09_norm fval9 mats cells = Ok d ->
+  Forall (pw_agrees rend pw) (all_blocks d) ->
+  T4V.C09.Model.write_compositions (map mc_of mats) cells9 pw =
+  T4V.C09.Model.Ok (text_of (composition_lines_of rend d)).
+Proof. exact write_compositions_agree. Qed.
+Print Assumptions C10_write_compositions_agree_linked.
+
+Example C10_agree_unfold : forall (c : T4V.C09.Model.cell) z s key entries atom rend pw (b : block (T:=R)),
+  cell10 c z = mkCell (IZR (T4V.C09.Model.c_imp c)) (T4V.C09.Model.c_univ c)
+                 (match T4V.C09.Model.c_fill c with Some _ => true | None => false end) z
+                 (T4V.C09.Model.c_dens c) /\
+  fval9 s = match T4V.C09.Model.normalize_float s with
+            | T4V.C09.Model.Ok nd => if T4V.C09.Model.float_ok nd
+                                     then Some (if T4V.C09.Model.neg_density nd then (-1)%R else 1%R) else None
+            | T4V.C09.Model.Err _ => None end /\
+  mc9 key entries atom = T4V.C09.Model.mkMcard (Z.of_N key) (match atom with Some true => true | _ => false end) entries /\
+  pw_agrees rend pw b = match b_body b with
+                        | BNum _ => T4V.C09.Model.find_isos (block_name b) pw = body_items rend b
+                        | BStr _ => True end.
+Proof. intros. repeat split; reflexivity. Qed.
+
+(* non-vacuity: one card, one live cell at a mass density *)
+Definition ex_c9 : T4V.C09.Model.cell :=
+  T4V.C09.Model.mkCell "05" (Some "-1.0") 1 0 None [].
+Definition ex_mats : list (N * abundances) := [(5%N, ([(("H", "1"), "0.11"); (("O", "16"), "0.89")], Some false))].
+
+Example C10_agree_example :
+  to10 [(1%Z, ex_c9)] = Some [cell10 ex_c9 5] /\
+  exists d, construct RS c09_norm fval9 ex_mats [cell10 ex_c9 5] = Ok d /\
+            Forall (pw_agrees (fun _ _ _ => "") []) (all_blocks d) /\
+            text_of (composition_lines_of (fun _ _ _ => "") d) =
+            text_of [""; "COMPOSITION"; "2"; "DENSITY 300 m5_-1.0 1.0  2"; "  H1 0.11"; "  O16 0.89";
+                     "POINT_WISE 300 m0 1"; "  HE4 1E-30"; ""; "END_COMPOSITION"].
+Proof.
+  split; [reflexivity|].
+  assert (Hf : fval9 "-1.0" = Some (-1)%R).
+  { unfold fval9. replace (T4V.C09.Model.normalize_float "-1.0") with (T4V.C09.Model.Ok "-1.0") by (vm_compute; reflexivity).
+    replace (T4V.C09.Model.float_ok "-1.0") with true by (vm_compute; reflexivity).
+    replace (T4V.C09.Model.neg_density "-1.0") with true by (vm_compute; reflexivity). reflexivity. }
+  assert (Hn : c09_norm "-1.0" = "-1.0") by (vm_compute; reflexivity).
+  assert (Hlt : Rltb (-1) 0 = true) by (apply Rltb_true; apply (IZR_lt (-1) 0); reflexivity).
+  eexists. split; [|split].
+  - unfold ex_mats. cbn [construct].
+    replace (extract [(("H", "1"), "0.11"); (("O", "16"), "0.89")]) with
+      (Ok [("H1", "0.11"); ("O16", "0.89")] : res (list (string * string))) by (vm_compute; reflexivity).
+    cbn [scan]. rewrite live_agree. replace (T4V.C09.Model.live ex_c9) with true by reflexivity.
+    cbn [negb c_mat cell10 c_dens ex_c9 T4V.C09.Model.c_dens]. cbn [Z.of_N Z.eqb Pos.eqb negb mem existsb].
+    rewrite Hf. unfold block_for. cbn [sltb s0 RS]. rewrite Hlt, Hn. reflexivity.
+  - repeat constructor.
+  - reflexivity.
+Qed.
+
+(* the amounts of an atom-density block in terms of the RATIONAL values of the
+   spellings (C09.Spec.number_value, read as reals): if float() returns the
+   value of each fraction's spelling (exact_fraction) and the cell density is
+   the value of numd, the j-th amount is value_j * value(numd) / sum of the
+   values and the amounts sum to the density MCNP reads.  This is where the
+   link stops: binary64 rounds the spellings (0.1 is not a binary64 number),
+   fsum, * and / round again; the tie bounds the difference by 1e-14. *)
+Theorem C10_atom_density_block_linked :
+  forall norm (fval : string -> option R) rend (m : mcard) (d : string)
+         (numd : T4V.C09.Spec.number) (nums : list T4V.C09.Spec.number),
+  (0 <= value_R numd)%R -> card_flag m = Some true ->
+  Forall2 (exact_fraction fval) (nuclides (m_items m)) nums ->
+  ssum RS (map value_R nums) <> 0%R ->
+  exists b, block_for RS norm fval (m_num m) (card_entries m) (card_flag m) d (value_R numd) = Ok b /\
+    block_lines rend b =
+      ("POINT_WISE 300 " ++ name_for norm m d ++ " "
+       ++ dec (N.of_nat (List.length (nuclides (m_items m)))))
+      :: amount_lines rend (name_for norm m d) 0 (nuclides (m_items m))
+           (rescale RS (map value_R nums) (value_R numd)) /\
+    ssum RS (rescale RS (map value_R nums) (value_R numd)) = value_R numd /\
+    (forall j num, nth_error nums j = Some num ->
+       nth_error (rescale RS (map value_R nums) (value_R numd)) j =
+       Some (value_R num * value_R numd / ssum RS (map value_R nums))%R).
+Proof. exact atom_density_block_values. Qed.
+Print Assumptions C10_atom_density_block_linked.
+
+Example C10_exact_fraction_unfold : forall fval n num,
+  exact_fraction fval n num =
+  (T4V.C09.Spec.wf_number num = true /\ T4V.C09.Spec.n_sign num = "" /\
+   (exists pad mk, T4V.C09.Spec.marker_ok num mk = true /\ nfrac n = T4V.C09.Spec.spell num pad mk) /\
+   fval (nfrac n) = Some (Q2R (T4V.C09.Spec.number_value num))).
+Proof. reflexivity. Qed.
+
+(* non-vacuity: H 2 / O 1 (spelled 2 and 1.0d0) *)
+Definition ex_h2o : mcard :=
+  mkCard 9 false 0 false false
+    [INuc (mkNuc 1 1 0 None false "2"); INuc (mkNuc 8 16 0 None false "1.0d0")].
+Definition ex_two : T4V.C09.Spec.number := T4V.C09.Spec.mkNumber "" "2" None None.
+Definition ex_one : T4V.C09.Spec.number := T4V.C09.Spec.mkNumber "" "1" (Some "0") (Some ("", "0")).
+Definition ex_fvalR (s : string) : option R :=
+  if String.eqb s "2" then Some (value_R ex_two) else if String.eqb s "1.0d0" then Some (value_R ex_one) else None.
+
+Example C10_exact_fraction_example :
+  card_flag ex_h2o = Some true /\
+  Forall2 (exact_fraction ex_fvalR) (nuclides (m_items ex_h2o)) [ex_two; ex_one] /\
+  T4V.C09.Spec.number_value ex_two = QArith_base.Qmake 2 1 /\
+  QArith_base.Qeq (T4V.C09.Spec.number_value ex_one) (QArith_base.Qmake 1 1).
+Proof.
+  split; [reflexivity|]. split; [|split; [reflexivity|vm_compute; reflexivity]].
+  constructor; [|constructor; [|constructor]].
+  - split; [reflexivity|]. split; [reflexivity|]. split; [|reflexivity].
+    exists 0%nat, T4V.C09.Spec.Me. split; reflexivity.
+  - split; [reflexivity|]. split; [reflexivity|]. split; [|reflexivity].
+    exists 0%nat, T4V.C09.Spec.Md. split; reflexivity.
 Qed.
